@@ -34,9 +34,10 @@ where
         }
         Err(e) => {
             let (fatal, f) = classify(&e);
+            // (error class first: in the C03 build the C01 conditions below are assumptions and would cut this path)
+            crate::a03!(fatal == (f == Some(Fault::Overflow)), "C03 error class: only a stack overflow may be fatal; underflow and arithmetic faults are recoverable");
             crate::a01!(exp.fault.is_some(), "C01 instruction failed although its semantics prescribe success");
             crate::a01!(f.is_some() && (f == exp.fault || f == exp.alt), "C01 error kind / payload differs from the prescribed one");
-            crate::a03!(fatal == (f == Some(Fault::Overflow)), "C03 error class: only a stack overflow may be fatal; underflow and arithmetic faults are recoverable");
             if let (Some(want), PushInstructionError::Int(IntInstructionError::Overflow { op: got })) = (int_op, e.error()) {
                 crate::a01!(*got == want, "C01 integer overflow error names a different instruction");
             }
